@@ -46,6 +46,10 @@ def monitor(run):
                 yield f'tick {t} pool {pi}: free CPU {p["avail_cpu"]} + allocated {cpu - p["avail_cpu"]} != capacity {p["max_cpu"]}'
             if ram != F(p['max_ram']):
                 yield f'tick {t} pool {pi}: free RAM {p["avail_ram"]} + allocated {float(ram - F(p["avail_ram"]))} != capacity {p["max_ram"]}'
+            for c in p['active']:
+                if c['completed']:
+                    yield (f'tick {t} pool {pi}: container {c["cid"]} has exited but still holds {c["cpu"]} CPUs / {c["ram"]} GB '
+                           f'(its allocation was not returned in the tick it failed or finished)')
             for c in p['suspending']:
                 if c['left'] is not None and c['left'] <= 0:
                     yield (f'tick {t} pool {pi}: container {c["cid"]} finished suspending (ticks left {c["left"]}) '
@@ -78,6 +82,7 @@ def run(ctx):
         ('G-exec-long', 10, 150, dict(max_ticks=400, p_bad=0.0)),
         ('G-exec-twins', 80, 1200, dict(twins=True)),
         ('G-exec-overlap', 40, 600, dict(overlap=True)),
+        ('G-exec-burst', 60, 1000, dict(burst=True)),
         ('G-exec-oversell', 80, 1200, dict(p_bad=1.0, bad_kinds=['asg-cpu+1', 'asg-ram+'], bad_early=True)),
     ], nontrivial=lambda run: any(e.get('new') for e in run.trace))
     out['rule'] = ('state-aware command fuzzer over Executor (1-3 pools, CPUs 1-16, RAM 0.5..256, overcommit on/off, both '
